@@ -7,5 +7,10 @@ import (
 
 func TestMain(m *testing.M) {
 	os.Setenv("LXRBITSIZE", "8")
+	if os.Getenv("PEGSIM_KEEP_STDOUT") == "" {
+		if f, err := os.OpenFile(os.DevNull, os.O_WRONLY, 0); err == nil {
+			os.Stdout = f
+		}
+	}
 	os.Exit(m.Run())
 }
